@@ -238,6 +238,39 @@ func ruleCornerTables(c *Ctx) {
 					lit, _ = ast.Unparen(rs.Results[0]).(*ast.CompositeLit)
 				}
 			}
+			wholeCorner := ""
+			if lit == nil {
+				// `return b.Min` / `return b.Max` stand for the corner itself
+				for _, st := range cc.Body {
+					if rs, ok := st.(*ast.ReturnStmt); ok && len(rs.Results) == 1 {
+						if se, ok := ast.Unparen(rs.Results[0]).(*ast.SelectorExpr); ok && (se.Sel.Name == "Min" || se.Sel.Name == "Max") {
+							if id, ok := se.X.(*ast.Ident); ok && pk.TypesInfo.Uses[id] == boundPar {
+								wholeCorner = se.Sel.Name
+							}
+						}
+					}
+				}
+			}
+			if wholeCorner != "" {
+				bad := ""
+				for axis := int64(0); axis < 2; axis++ {
+					wantSide := ""
+					for bit, e := range bitEdge {
+						if code&bit != 0 && e.axis == axis {
+							wantSide = e.side
+						}
+					}
+					if wantSide != wholeCorner {
+						bad += fmt.Sprintf(" coordinate %d must be on %q, the returned corner is b.%s;", axis, wantSide, wholeCorner)
+					}
+				}
+				if bad != "" {
+					c.R.Bad("T8-pointFor", cons, p.Pos(cc.Pos()), fmt.Sprintf("representative point of code %d is not on its edges:%s", code, bad))
+				} else {
+					c.R.OK("T8-pointFor", cons, p.Pos(cc.Pos()), "the corner b."+wholeCorner)
+				}
+				continue
+			}
 			if lit == nil || len(lit.Elts) != 2 {
 				c.R.Unknown("T8-pointFor", cons, p.Pos(cc.Pos()), "case does not return a two-coordinate point literal")
 				continue
